@@ -14,6 +14,7 @@ import operator
 import os
 import re
 import textwrap
+import threading
 import time
 import types
 
@@ -98,6 +99,9 @@ class Interp:
         self.nqueries = 0
         self.unknown_feasibility = 0
         self.digit_defs = set()
+        self.interfere = set()      # C14: (class, attr) of shared fields another thread may overwrite at any time
+        self.interfered = []
+        self.guarantee = {}         # (class, attr) -> [(pc, value term)] collected from an undisturbed exploration
         self.named_terms = {}
         self.assume_requires = 0
         self.entails_cache = {}
@@ -470,10 +474,24 @@ class Interp:
             raise Unsupported(f"assign target {type(t).__name__}")
 
     def setattr(self, obj, name, v, f, lineno):
-        shared = not (isinstance(obj, SObj) or id(obj) in self.local_ids)
+        cls = obj.cls if isinstance(obj, SObj) else type(obj)
+        k, d = self.lookup_cls(cls, name) if isinstance(cls, type) else (None, None)
+        if isinstance(d, property) and k is not None and self.is_repo_cls(k):
+            if d.fset is None:
+                raise Raised(AttributeError(f"property {name} has no setter"))
+            self.call_function(d.fset, [obj, v], {}, defcls=k)
+            return
+        # threading.local attributes are per thread (assumed contract of threading.local): not shared between
+        # threads (C14), but they do outlive the call within a thread (C15: havocked on read-before-write)
+        tlocal = isinstance(obj, threading.local)
+        shared = not (isinstance(obj, SObj) or id(obj) in self.local_ids) and not tlocal
         self.heap[(id(obj), name)] = v
+        code = f.fn.__code__ if f.fn is not None else None
         self.writes.append(dict(kind="attr", target=(obj.cls.__name__ if isinstance(obj, SObj) else type(obj).__name__),
-                                attr=name, shared=shared, where=f.qual, line=lineno, obj=obj))
+                                attr=name, shared=shared, where=f.qual, line=lineno, obj=obj,
+                                value=v, pc=list(self.pc),
+                                file=code.co_filename if code else "?",
+                                abs_line=(code.co_firstlineno + lineno - 1) if code else 0))
 
     def x_If(self, s, f):
         if self.truthy(self.eval(s.test, f)):
@@ -662,7 +680,8 @@ class Interp:
         if isinstance(v, int):
             return str(v)
         if self.branch(SBool(v.t < 0)):
-            raise Unsupported("str() of a negative symbolic int")
+            pos = self.str_of_int(SInt(-v.t))
+            return self.concat(["-", pos])
         if self.entails(v.t < 10):
             return SStr([48 + v.t])
         bound = None
@@ -731,11 +750,13 @@ class Interp:
             if not isinstance(p, Dec):
                 out.append(p)
                 continue
+            if p.bound is None or p.bound > 10 ** 12:
+                raise Unsupported("str() of a symbolic int that may have more than 12 digits (length unknown)")
             n = 1
             while not self.branch(SBool(p.v < 10 ** n)):
                 n += 1
-                if n > 40:
-                    raise Unsupported("str(int) wider than 40 digits")
+                if n > 12:
+                    raise Unsupported("str(int) wider than 12 digits")
             out += self.digits_of(p.v, n)
         return SStr(out)
 
@@ -754,7 +775,19 @@ class Interp:
 
     def getattr(self, obj, name):
         if (id(obj), name) in self.heap:
+            if self.interfere and not isinstance(obj, SObj) and id(obj) not in self.local_ids \
+                    and (type(obj).__name__, name) in self.interfere_fields(obj):
+                # C14 second tier: another thread may have written this shared field since this call wrote it
+                self.interfered.append((type(obj).__name__, name))
+                v = self.fresh(f"interference_{name}")
+                self.assumptions.append(self.guarantee_formula((type(obj).__name__, name), v))
+                return SInt(v)
             return self.heap[(id(obj), name)]
+        if isinstance(obj, threading.local):
+            self.havoc_log.append(("threading.local", name))
+            t = SInt(z3.Int(f"havoc_threadlocal_{name}"))
+            self.heap[(id(obj), name)] = t
+            return t
         if isinstance(obj, SuperProxy):
             target = obj.obj
             cls = target if isinstance(target, type) else (target.cls if isinstance(target, SObj) else type(target))
@@ -842,6 +875,39 @@ class Interp:
             return getattr(obj, name)
         except AttributeError as ex:
             raise Raised(ex)
+
+    def guarantee_formula(self, field, v):
+        """what another thread's call can have written into `field`: v equals one of the values some path of the
+        same call tree writes there, for some (renamed) input of that other call"""
+        recs = self.guarantee.get(field)
+        if not recs:
+            return z3.BoolVal(True)
+        self.rename_n = getattr(self, "rename_n", 0) + 1
+        alts = []
+        for pc, term in recs:
+            fs = list(pc) + [v == term]
+            consts = {}
+            stack = list(fs)
+            seen = set()
+            while stack:
+                x = stack.pop()
+                if x.get_id() in seen:
+                    continue
+                seen.add(x.get_id())
+                if z3.is_const(x) and x.decl().kind() == z3.Z3_OP_UNINTERPRETED and x.get_id() != v.get_id():
+                    consts[x.decl().name()] = x
+                elif z3.is_app(x):
+                    stack.extend(x.children())
+            subs = [(c, z3.Const(f"{n}@other{self.rename_n}", c.sort())) for n, c in consts.items()]
+            dom = [z3.And(*[z3.Or(*[o == d for d in self.domains[n]])]) for n, (c, o) in
+                   zip(consts, subs) if n in self.domains]
+            alts.append(z3.And(*[z3.substitute(f, *subs) for f in fs], *dom))
+        return z3.Or(*alts)
+
+    def interfere_fields(self, obj):
+        """fields of a shared object that some call writes: (class name of any class in the MRO, attr)"""
+        names = {k.__name__ for k in type(obj).__mro__}
+        return {(type(obj).__name__, a) for (c, a) in self.interfere if c in names or c == type(obj).__name__}
 
     def is_shared_mutable(self, obj):
         from schwifty.checksum import Algorithm
